@@ -25,13 +25,13 @@ FMT_RULE = ("cases are generated from one splitmix64 state (VERIF_SEED, op, inde
 HOOK_COMMITS = ["94169f7"]
 
 ENGINES = [
-    {"name": "extractor", "path": "extract/", "serves_properties": ["C02", "C03", "C04", "C05", "C06"],
+    {"name": "extractor", "path": "extract/", "serves_properties": ["C02", "C03", "C04", "C05", "C06", "C08", "C10", "C11", "C12"],
      "kind_free_text": "Go (go/ast): regenerates lean/Carapace/Gen (replacer tables, character sets, format strings, shell lists) from /repo on every run"},
-    {"name": "lean", "path": "lean/", "serves_properties": ["C02", "C03", "C04", "C05", "C06"],
+    {"name": "lean", "path": "lean/", "serves_properties": ["C02", "C03", "C04", "C05", "C06", "C08", "C10", "C11", "C12"],
      "kind_free_text": "Lean 4 library: Model (transcription of the code), Spec (readers, decoders, oracles), Props (theorems); compiled driver lean/Driver"},
-    {"name": "harness", "path": "harness/", "serves_properties": ["C02", "C03", "C04", "C05", "C06"],
+    {"name": "harness", "path": "harness/", "serves_properties": ["C02", "C03", "C04", "C05", "C06", "C08", "C10", "C11", "C12"],
      "kind_free_text": "Go module linking the real packages from /repo with -tags verif; generators and in-process execution, one JSON line per case"},
-    {"name": "runner", "path": "check", "serves_properties": ["C02", "C03", "C04", "C05", "C06"],
+    {"name": "runner", "path": "check", "serves_properties": ["C02", "C03", "C04", "C05", "C06", "C08", "C10", "C11", "C12"],
      "kind_free_text": "python3 (stdlib): orchestration, known-finding classification by input neutralisation, shrinking, evidence"},
 ]
 
@@ -64,6 +64,39 @@ PROPS = {
 }
 
 
+ALG_ASSUME = [
+    "callbacks and function-valued parameters are finite tables (ActionExpr, DESIGN.md appendix E); regular expressions given to Suppress are quoted literals",
+    "styles, uid, Cache, Timeout, Chdir, Split are handled by their own properties; case-insensitive matching is modelled for ASCII letters only",
+]
+ALG_RULE = ("random ActionExpr trees (depth <= 4 over 5 leaf kinds and 22 modifiers incl. Batch, MultiParts, ActionMultiPartsN, List, UniqueList, callbacks that test or edit the Context) "
+            "x random Contexts (typed value empty / prefix of a value / arbitrary, args, parts, env, dir), from one splitmix64 state; non-trivial = the real result has at least one value or message; distinct = distinct input digest")
+ALG_NOTE = ("Trusted: Lean kernel + propext/Classical.choice/Quot.sound; the harness interpreter from ActionExpr to real carapace.Action values (public API only); the generators. "
+            "Modelled, not verified: the Go code of action.go, defaultActions.go, invokedAction.go, batch.go, internal/common (bound by exact comparison of every invoked result with the pure Lean model). "
+            "regexp, stripansi, style functions are parameters / outside the model.")
+
+PROPS.update({
+    "C11": {"modules": ["Carapace.Props.C11"], "ops": [("invoke", {"quick": 12000, "thorough": 600000})], "rule": ALG_RULE, "assumptions": ALG_ASSUME,
+            "claimed": True, "engine": "alg",
+            "level_text": ("`C11_tokenize_concat` (tokens concatenate to the text, by induction over the divider list and the string), `C11_sound` (every candidate is the first n segments of an original value that starts with the typed text, hence a prefix of it; never panics), `C11_complete` (every such value is the continuation of an offered candidate), `C11_distinct` (exactly one), `C11_one_segment`, `C11_nospace_single` - for all value sets, all lists of non-empty dividers (multi-character included) and all typed texts; the empty divider is excluded by hypothesis and its failures are decided counterexamples and listed findings. "
+                           "Correspondence: exact comparison of the real `MultiParts` result with the model on random expressions; oracle on the real result: set equality with the independent segment specification `Spec.nextSegments`, final-step metadata, intermediate steps end in a divider with no-space."),
+            "level_note": ALG_NOTE},
+    "C12": {"modules": ["Carapace.Props.C12"], "ops": [("invoke", {"quick": 12000, "thorough": 600000})], "rule": ALG_RULE, "assumptions": ALG_ASSUME,
+            "claimed": True, "engine": "alg",
+            "level_text": ("One frame theorem per modifier over the pure model `invoke` (Filter, Retain, FilterArgs/Parts, Prefix incl. the law p+x -> p + completion of x and the incompatible case, Suffix, Style, Tag, Usage with outer-overrides-inner, NoSpace, Suppress, Unless, Shift, Context edits, ActionMultiPartsN frame and parts, UniqueList never re-offers a part); MultiParts dropping the inner meta is a decided counterexample and a listed finding. "
+                           "The model is bound to the library by exact comparison of every invoked result on random expression trees x Contexts; the frame conditions of the top-level modifier are additionally evaluated on the real result against the real result of the inner expression."),
+            "level_note": ALG_NOTE},
+    "C08": {"modules": ["Carapace.Props.C08"], "ops": [("history", {"quick": 6000, "thorough": 300000})], "rule": "random tables of 1-3 ActionExpr (later entries built from earlier Go values by Prefix/Batch/NoSpace/MultiParts/Usage, stored actions, messages with format arguments) x 2-6 invocations interleaved over two Contexts; non-trivial = at least two steps; distinct = distinct input digest",
+            "assumptions": ALG_ASSUME, "claimed": True, "engine": "alg", "category": "translation_validation", "mismatch_is_failure": True,
+            "level_text": ("Translation validation, not a proof of the Go code: in the pure Lean model `invoke` an Action is a value, so repeatability holds by construction (`C08_history`, `C08_repeatable`) and Context edits are local (`C08_ctx_local_sibling`, `C08_ctx_local_later`, `C08_setenv_visible_beneath`). What decides the property is the history correspondence: the same Go values are kept alive, invoked repeatedly and interleaved with the actions built from them, and every step must equal the pure invocation; any trace an invocation leaves shows as a differing step. The store model of DESIGN.md C08 layer (b) is not built."),
+            "level_note": ALG_NOTE},
+    "C10": {"modules": ["Carapace.Props.C10"], "ops": [("repeat", {"quick": 1500, "thorough": 60000})], "rule": "expressions that produce equal displays / equal values through Batch, MultiParts, Suffix, plus random trees; each formatted 30 times in-process (Go randomises every map iteration) for one of 7 formats; non-trivial = every case; distinct = distinct input digest",
+            "assumptions": ALG_ASSUME + ["goroutine scheduling and map iteration seeds are only sampled (30 repetitions per case); fresh-process repetition is not performed in the quick tier"],
+            "claimed": True, "engine": "alg",
+            "level_text": ("`C10_sorted_unique`: two sorted arrangements of the same candidates are the same list (for every permutation delivered by map iteration or scheduling and every sorting algorithm) because the order - display text, ties broken by value - is total on candidates with distinct (display, value) (`str_eq_of_not_lt`, `le_antisymm_key`), and `C10_unique_key`: after Unique (a map keyed by value) that condition holds. Runtime part searched, not proved: 30 in-process repetitions per generated case must be byte-identical."),
+            "level_note": ALG_NOTE + " The Go runtime's map iteration and scheduler are only sampled."},
+})
+
+
 def all_lean_sources():
     out = []
     for root in ("Carapace", "Driver"):
@@ -80,6 +113,8 @@ def mismatch_relevant(pid, verdict):
 
 
 def nontrivial(op, inp):
+    if op == "history":
+        return len(inp.get("steps") or []) >= 2
     if op == "value":
         return bool(inp.get("values")) or bool((inp.get("meta") or {}).get("messages"))
     return True
